@@ -10,7 +10,8 @@ import fcntl, hashlib, json, os, random, re, shutil, subprocess, sys, time
 
 VERIF = os.path.dirname(os.path.dirname(os.path.abspath(__file__)))
 REPO = os.environ.get("VERIF_REPO", "/repo")
-WORK = os.path.join(VERIF, "_work")
+WORK = os.environ.get("VERIF_WORK", os.path.join(VERIF, "_work"))
+EXTRACT_ROOT = os.path.join(VERIF, "_work", "extract")   # Extract.v files write here (path fixed in the .v)
 COQ = os.path.join(VERIF, "coq")
 NPROC = os.cpu_count() or 4
 
@@ -198,7 +199,7 @@ def coq_files():
 def coq_makefile():
     for d in os.listdir(COQ):
         if re.match(r"^C\d+$", d):
-            os.makedirs(os.path.join(WORK, "extract", d), exist_ok=True)
+            os.makedirs(os.path.join(EXTRACT_ROOT, d), exist_ok=True)
     files = coq_files()
     proj = "-Q . OV\n-arg -w -arg -notation-overridden,-deprecated-hint-without-locality,-deprecated-instance-without-locality,-ambiguous-paths\n" + "\n".join(files) + "\n"
     pj = os.path.join(COQ, "_CoqProject")
@@ -322,7 +323,7 @@ def coq_properties(prop, dirs=None, extra_targets=(), gen_targets=()):
 def build_model(prop, driver_ml=None, extra_ml=()):
     """Compile the extracted OCaml model (coq/<prop>/Extract.v writes _work/extract/<prop>/model.ml)
     together with extract/<prop>/driver.ml."""
-    ed = os.path.join(WORK, "extract", prop)
+    ed = os.path.join(EXTRACT_ROOT, prop)
     driver_ml = driver_ml or os.path.join(VERIF, "extract", prop, "driver.ml")
     exe = os.path.join(ed, "model_driver")
     srcs = [os.path.join(ed, "model.mli"), os.path.join(ed, "model.ml")] + list(extra_ml) + [driver_ml]
@@ -355,7 +356,7 @@ def build_model(prop, driver_ml=None, extra_ml=()):
 
 
 def extract_dir(prop):
-    d = os.path.join(WORK, "extract", prop)
+    d = os.path.join(EXTRACT_ROOT, prop)
     os.makedirs(d, exist_ok=True)
     return d
 
